@@ -281,7 +281,7 @@ def check_transfer_members(case, ctx):
     shape = tuple(len(dist_values(canon[s][0])) for s in order)
     base_shape = tuple(_computed(make_waves(ws)).shape)
     if ens.shape != shape + base_shape:
-        raise Violation(f"{cls}{sorted(params)}: ensemble result has shape {ens.shape}, expected {shape + base_shape} (axes {order} + waves)", ("shape", cls))
+        raise Violation(f"{cls}{sorted(params)}: ensemble result has shape {ens.shape}, expected {shape + base_shape} (axes {order} + waves)", ("shape",))
 
     # ---------------------------------------------------------------- (b) axis metadata, by position
     axes = out.ensemble_axes_metadata
@@ -329,7 +329,7 @@ def check_transfer_members(case, ctx):
             raise Violation(
                 f"{cls} via {case['via']}: member {idx} of {dict((dist_names[s], canon[s][0]) for s in order)} differs from the scalar run {dict((dist_names[s], skw[dist_names[s]]) for s in order)} "
                 f"(x weight {w_applied:.4g}) by {err_applied:.2e} relative; other params {dict((k, v) for k, v in params.items() if not is_dist(v))}",
-                ("member", cls, "weighted" if weighted else "unit", f"{len(order)}axes"),
+                ("member", cls, "weighted" if weighted else "unit"),
             )
     ctx.label("cls:" + cls)
     ctx.label("via:" + case["via"])
@@ -511,7 +511,7 @@ def check_builder_members(case, ctx):
     # single-member axes that abTEM squeezes: none of the generated ones (CustomScan of an
     # explicit BaseScan keeps its axis); so the full shape is expected
     if ens.shape != shape + base:
-        raise Violation(f"{case['cls']}: ensemble result has shape {ens.shape}, expected {shape + base} for axes {axes}", ("shape", case["cls"]))
+        raise Violation(f"{case['cls']}: ensemble result has shape {ens.shape}, expected {shape + base} for axes {axes}", ("shape",))
 
     # ---------------------------------------------------------------- (b) axis metadata by position
     metas = out.ensemble_axes_metadata
@@ -570,7 +570,7 @@ def check_builder_members(case, ctx):
         if err > RTOL_PIPELINE:
             raise Violation(
                 f"{case['cls']} ({'multislice' if case['multislice'] else 'build'}, lazy={case['lazy']}): member {dict(pick)} of axes {axes} differs from the scalar run by {err:.2e} relative",
-                ("member", case["cls"], "multislice" if case["multislice"] else "build", "+".join(sorted({n.rstrip('01').split('_')[0] if n.startswith(('scan', 'tilt')) else ('cutoff' if n == 'semiangle_cutoff' else 'aberration') for n, _ in axes}))),
+                ("member", case["cls"], "+".join(sorted({n.rstrip('01').split('_')[0] if n.startswith(('scan', 'tilt')) else ('cutoff' if n == 'semiangle_cutoff' else 'aberration') for n, _ in axes}))),
             )
     ctx.label("cls:" + case["cls"])
     ctx.label("multislice", case["multislice"])
@@ -674,14 +674,14 @@ def check_ensemble_mean(case, ctx):
         raise Violation(f"ensemble_mean=False run has shape {full.shape} for distributions {names}", ("mean", "full_shape"))
     ref = full.mean(axis=tuple(averaged)) if averaged else full
     if got.shape != ref.shape:
-        raise Violation(f"{case['detector']}: ensemble_mean={on} gives shape {got.shape}; mean over axes {averaged} of the ensemble_mean=False run has shape {ref.shape}", ("mean", "shape", case["detector"]))
+        raise Violation(f"{case['detector']}: ensemble_mean={on} gives shape {got.shape}; mean over axes {averaged} of the ensemble_mean=False run has shape {ref.shape}", ("mean", "shape"))
     err = tol.rel_err(got, ref)
     if err > RTOL_PIPELINE:
-        raise Violation(f"{case['detector']}: ensemble_mean={on} differs from the mean over axes {averaged} of the ensemble_mean=False run by {err:.2e} relative", ("mean", "values", case["detector"]))
+        raise Violation(f"{case['detector']}: ensemble_mean={on} differs from the mean over axes {averaged} of the ensemble_mean=False run by {err:.2e} relative", ("mean", "values"))
     # the averaged axes are gone, the others keep their metadata
     kept = [a for i, a in enumerate(full_obj.ensemble_axes_metadata) if i not in averaged]
     if gen.axes_to_plain(got_obj.ensemble_axes_metadata) != gen.axes_to_plain(kept):
-        raise Violation(f"{case['detector']}: axes after averaging {[type(a).__name__ for a in got_obj.ensemble_axes_metadata]} != remaining axes {[type(a).__name__ for a in kept]}", ("mean", "axes", case["detector"]))
+        raise Violation(f"{case['detector']}: axes after averaging {[type(a).__name__ for a in got_obj.ensemble_axes_metadata]} != remaining axes {[type(a).__name__ for a in kept]}", ("mean", "axes"))
     canon = _canonical(case["aberrations"])
     specs = [canon[_ALIAS.get(n, n)][0] if n != "semiangle_cutoff" else case["semiangle_cutoff"] for n in names]
     ctx.label("detector:" + case["detector"])
